@@ -1746,6 +1746,8 @@ class Executor:
             r = self.theory.apply_method(self, e, base, meth, args, st)
             if r is not None:
                 return r
+        if base.sort == 'Str' and meth in ('startswith', 'endswith') and len(args) == 1 and args[0].sort == 'Str':
+            return [(st, SV('Bool', '(str.%s %s %s)' % ('prefixof' if meth == 'startswith' else 'suffixof', args[0].e, base.e)))]
         raise OutOfSubset('method %s on %s' % (meth, base.sort), e)
 
     def apply_contract(self, e, c, args, st):
